@@ -166,6 +166,9 @@ func generateGrid(family string, n int, r *rng, p func(string, ...any)) bool {
 	case "tbsgrid":
 		genTbsGrid(p)
 		return true
+	case "ecfault":
+		genEcFault(p)
+		return true
 	case "keyrt":
 		genKeyRT(r, n, p)
 		return true
@@ -484,6 +487,11 @@ func genEcGrid(r *rng, n int, p func(string, ...any)) {
 					append(leftPadBytes(rr.Bytes(), size+1), leftPadBytes(ss.Bytes(), size+1)...),
 					fixed[:len(fixed)-1], fixed[1:], fixed[:size], {},
 					append(leftPadBytes(ss.Bytes(), size), leftPadBytes(rr.Bytes(), size)...),
+					append(append(append([]byte{}, fixed[:size]...), 0), fixed[size:]...),
+					append(append(append([]byte{}, fixed[:size]...), 0, 0), fixed[size:]...),
+					append(append(append([]byte{}, fixed[:size]...), 0, 0, 0, 0), fixed[size:]...),
+					append(append([]byte{}, fixed...), 0, 0),
+					append([]byte{0, 0}, fixed...),
 				}
 				for _, v := range variants {
 					p("ecdec %s %s %s", cn, seed, hexs(v))
@@ -591,6 +599,36 @@ func genTbsGrid(p func(string, ...any)) {
 			}
 			if hasAlg && !big {
 				p("cs full s1 p hex:%s H(%s;{i64:1=a:-7};-;{}) - T:-7:1 T:-7:1", enc, hexs(prot.enc()))
+			}
+		}
+	}
+}
+
+// C20 / C16: an opaque ECDSA crypto.Signer whose ASN.1 output the library cannot fit into the
+// fixed width (S too large, negative values): every structure that stores or returns a signature.
+func genEcFault(p func(string, ...any)) {
+	hd := func(a int) string { return fmt.Sprintf("H(-;{i64:1=a:%d};-;{})", a) }
+	for _, cn := range []string{"p256", "p384", "p521"} {
+		curve, alg := curveOf(cn)
+		a := int(alg)
+		N := curve.Params().N
+		size := (N.BitLen() + 7) / 8
+		one := big.NewInt(1)
+		big1 := new(big.Int).Lsh(one, uint(8*size))
+		vals := []*big.Int{one, big.NewInt(255), new(big.Int).Sub(N, one), new(big.Int).Sub(big1, one), big1,
+			new(big.Int).Lsh(one, uint(8*size+9)), big.NewInt(-5), big.NewInt(0)}
+		for _, r := range vals {
+			for _, s := range vals {
+				e := fmt.Sprintf("E:%s:%s:%s", cn, hexOf(r), hexOf(s))
+				v := fmt.Sprintf("F:%d:ok", a)
+				t := fmt.Sprintf("T:%d:1", a)
+				p("s1 t S1(%s;00;-) - %s %s a", hd(a), e, v)
+				p("s1h u %s 00 01 %s", hd(a), e)
+				p("sm SM(H(-;{};-;{});00;[cs(%s;-),cs(%s;-)]) - [%s,%s] [%s,%s] a", hd(a), hd(a), t, e, v, v)
+				p("sm SM(H(-;{};-;{});00;[cs(%s;-),cs(%s;-)]) - [%s,%s] [%s,%s] a", hd(a), hd(a), e, t, v, v)
+				p("cs full s1 p val:S1(%s;00;0102) %s - %s %s", hd(a), hd(a), e, v)
+				p("cs abbr sig v val:cs(%s;0102) %s 01 %s %s", hd(a), hd(a), e, v)
+				p("he H(-;{};-;{}) -16 %s - - %s %s", strings.Repeat("00", 32), e, v)
 			}
 		}
 	}
